@@ -1,4 +1,4 @@
-import G3D.Extracted.Handlers
+import G3D.Model.PyRt
 import G3D.Proofs.HandlersTieAttr
 /-! Generic lemmas about the Python runtime `G3D.PyRt` used by `G3D.Proofs.HandlersTie` (Mathlib-free). -/
 set_option linter.unusedSimpArgs false
